@@ -13,6 +13,7 @@ import (
 	"reflect"
 	"sort"
 	"strings"
+	"sync"
 
 	"github.com/go-kid/ioc/app"
 	"github.com/go-kid/ioc/component_definition"
@@ -216,15 +217,28 @@ type RPoint struct {
 	Ret    []string `json:"ret"` // func points: values of the returns argument (none = no argument)
 }
 type RScenario struct {
-	ID     string   `json:"id"`
-	Prov   []RProv  `json:"prov"` // prov[0] is the holder
-	Pts    []RPoint `json:"pts"`
-	Order  []int    `json:"order"`  // candidate iteration priority
-	Reg    []int    `json:"reg"`    // registration order
-	Split  bool     `json:"split"`  // wire even positions through a second tag-scan processor (varies the property order)
-	Seed   int64    `json:"seed"`   // permutation of the singleton registry's name enumeration
-	Preset bool     `json:"preset"` // every point's field holds a sentinel (pid 99, not a registered component) before the start
-	Extra  bool     `json:"extra"`  // processors.NewDependencyTypeAwarePostProcessors() is registered next to the default collector
+	ID      string   `json:"id"`
+	Prov    []RProv  `json:"prov"` // prov[0] is the holder
+	Pts     []RPoint `json:"pts"`
+	Order   []int    `json:"order"`   // candidate iteration priority
+	Reg     []int    `json:"reg"`     // registration order
+	Split   bool     `json:"split"`   // wire even positions through a second tag-scan processor (varies the property order)
+	Seed    int64    `json:"seed"`    // permutation of the singleton registry's name enumeration
+	Preset  bool     `json:"preset"`  // every point's field holds a sentinel (pid 99, not a registered component) before the start
+	Extra   bool     `json:"extra"`   // processors.NewDependencyTypeAwarePostProcessors() is registered next to the default collector
+	ViaMeta int      `json:"viaMeta"` // provider index (>= 2) registered by a user scanner through DefinitionRegistry.RegisterMeta instead of being handed to the App; 0 = none
+}
+
+// a user-written scanner that contributes a component definition of its own through the public registry API
+type metaAdder struct {
+	obj  any
+	once sync.Once
+}
+
+func (*metaAdder) Naming() string { return "zz-meta-adder" }
+func (a *metaAdder) PostProcessDefinitionRegistry(registry container.DefinitionRegistry, component any, name string) error {
+	a.once.Do(func() { registry.RegisterMeta(component_definition.NewMeta(a.obj)) })
+	return nil
 }
 
 // the sentinel a preset field holds before the start: never registered, so it can only survive, never be injected
@@ -416,10 +430,19 @@ func runResolve(sc *RScenario) []map[string]any {
 	var ordered []any
 	if len(sc.Reg) == len(comps) {
 		for _, id := range sc.Reg {
-			ordered = append(ordered, comps[id-1])
+			if id != sc.ViaMeta {
+				ordered = append(ordered, comps[id-1])
+			}
 		}
 	} else {
-		ordered = append(ordered, comps...)
+		for i, c := range comps {
+			if i+1 != sc.ViaMeta {
+				ordered = append(ordered, c)
+			}
+		}
+	}
+	if sc.ViaMeta >= 2 && sc.ViaMeta <= len(comps) {
+		ordered = append(ordered, &metaAdder{obj: comps[sc.ViaMeta-1]})
 	}
 	status := "ok"
 	func() {
